@@ -11,6 +11,9 @@ package dspinner
 // (muts and faulted are declared in dsindex, the lower package)
 //@ ghost dirtyMarked() bool
 
+// ix(self, key, value): the index x holds the entry (key, value)
+//@ ghost ix(x dsindex.Indexer, key string, value string) bool
+
 // reads
 //@ func iface github.com/ipfs/boxo/pinning/pinner/dsindex.Indexer.HasAny
 //@   modifies faulted()
@@ -26,13 +29,17 @@ package dspinner
 //@   ensures (err != nil ==> faulted()) && (err == nil ==> faulted() == old(faulted()))
 // single mutations are atomic: they apply completely or fail without effect
 //@ func iface github.com/ipfs/boxo/pinning/pinner/dsindex.Indexer.Add
-//@   modifies muts(), faulted()
-//@   ensures err == nil ==> muts() == old(muts()) + 1 && faulted() == old(faulted())
-//@   ensures err != nil ==> muts() == old(muts()) && faulted()
+//@   modifies ix(self, key, value), muts(), faulted()
+//@   ensures err == nil ==> ix(self, key, value) && muts() == old(muts()) + 1 && faulted() == old(faulted())
+//@   ensures err != nil ==> ix(self, key, value) == old(ix(self, key, value)) && muts() == old(muts()) && faulted()
 //@ func iface github.com/ipfs/boxo/pinning/pinner/dsindex.Indexer.Delete
-//@   modifies muts(), faulted()
-//@   ensures err == nil ==> muts() == old(muts()) + 1 && faulted() == old(faulted())
-//@   ensures err != nil ==> muts() == old(muts()) && faulted()
+//@   modifies ix(self, key, value), muts(), faulted()
+//@   ensures err == nil ==> !ix(self, key, value) && muts() == old(muts()) + 1 && faulted() == old(faulted())
+//@   ensures err != nil ==> ix(self, key, value) == old(ix(self, key, value)) && muts() == old(muts()) && faulted()
+//@ func iface github.com/ipfs/boxo/pinning/pinner/dsindex.Indexer.DeleteKey
+//@   modifies ix(self, key), muts(), faulted()
+//@   ensures err == nil ==> all(v string, !ix(self, key, v)) && faulted() == old(faulted())
+//@   ensures err != nil ==> faulted()
 // (Datastore.Put / Datastore.Delete: same contract, declared in dsindex, the lower package)
 
 //@ func (*pinner).setDirty
@@ -90,6 +97,8 @@ package dspinner
 //@   site[recursive_in_r_index] invoke:Indexer.Add#0 : arg0 == p.cidRIndex && mode == ipfspinner.Recursive
 //@   site[direct_in_d_index] invoke:Indexer.Add#1 : arg0 == p.cidDIndex && mode == ipfspinner.Direct
 //@   ensures[errors_are_faults] err != nil ==> faulted()
+//@   ensures[indexed_on_success] err == nil ==> (mode == ipfspinner.Recursive ==> any(k string, ix(p.cidRIndex, k, result0))) && (mode == ipfspinner.Direct ==> any(k string, ix(p.cidDIndex, k, result0))) && (name != "" ==> ix(p.nameIndex, name, result0))
+//@   ensures[entries_of_other_pins_untouched] all(k string, all(v string, v != res("call:newPin#0").Id ==> ix(p.nameIndex, k, v) == old(ix(p.nameIndex, k, v)) && ix(p.cidRIndex, k, v) == old(ix(p.cidRIndex, k, v)) && ix(p.cidDIndex, k, v) == old(ix(p.cidDIndex, k, v))))
 
 //@ func (*pinner).removePin
 //@   prop C22 C23
@@ -102,6 +111,10 @@ package dspinner
 //@   site[direct_from_d_index] invoke:Indexer.Delete#1 : arg0 == p.cidDIndex && arg3 == pp.Id
 //@   ensures[errors_are_faults] err != nil ==> faulted()
 //@   ensures[no_fault_no_error] !faulted() ==> err == nil
+// the indexes lose the entries of this pin and nothing else (other pins may share the name or the CID)
+//@   ensures[other_pins_keep_their_name_entries] all(k string, all(v string, v != pp.Id ==> ix(p.nameIndex, k, v) == old(ix(p.nameIndex, k, v))))
+//@   ensures[other_pins_keep_their_cid_entries] all(k string, all(v string, v != pp.Id ==> ix(p.cidRIndex, k, v) == old(ix(p.cidRIndex, k, v)) && ix(p.cidDIndex, k, v) == old(ix(p.cidDIndex, k, v))))
+//@   ensures[name_entry_removed] err == nil && pp.Name != "" ==> !ix(p.nameIndex, pp.Name, pp.Id)
 
 // ---- C22: failed calls change nothing -------------------------------------------------------
 // a call that fails for a reason other than a storage fault leaves the pin state untouched
@@ -114,6 +127,8 @@ package dspinner
 // pin record has to be written before the old one is removed
 //@   site[new_pin_before_old_removed] call:pinner.addPin : muts() == old(muts())
 //@   ensures[error_frame] err != nil && !faulted() ==> muts() == old(muts())
+//@   site[pins_what_was_asked] call:pinner.addPin : arg2 == c && arg3 == ipfspinner.Direct && arg4 == name
+//@   ensures[success_rewrites_the_pin] err == nil ==> called("call:pinner.addPin#0") && res("call:pinner.addPin#0", 1) == nil
 //@   ensures[refuses_if_recursive] res("invoke:Indexer.HasAny#0") && res("invoke:Indexer.HasAny#0", 1) == nil ==> err != nil && muts() == old(muts())
 
 //@ func (*pinner).doPinRecursive
@@ -122,6 +137,9 @@ package dspinner
 //@   requires p != nil
 //@   modifies all
 //@   site[new_pin_before_old_removed] call:pinner.addPin : muts() == old(muts())
+//@   site[pins_what_was_asked] call:pinner.addPin : arg2 == c && arg3 == ipfspinner.Recursive && arg4 == name
+// success without rewriting the pin only when someone else pinned the CID while the lock was released
+//@   ensures[success_rewrites_the_pin] err == nil ==> (called("call:pinner.addPin#0") && res("call:pinner.addPin#0", 1) == nil) || (!res("invoke:Indexer.HasAny#0", 0) && called("invoke:Indexer.HasAny#1") && res("invoke:Indexer.HasAny#1", 0))
 //@   ensures[error_frame] err != nil && !faulted() ==> muts() == old(muts())
 
 //@ func (*pinner).Unpin
